@@ -79,6 +79,10 @@ MEMO_GRAMMARS = (
     ('cut-then-retry-earlier-rule', "start = {s} $ ;\ns = w 'b' ~ w | w 'c' ;\nw = /a+/ ;", 'abc'),
     ('more-memos-than-cache', "start = {a} 'b' $ | {a} 'c' $ | {a b_} $ ;\na = 'a' ;\nb_ = 'b' | 'c' ;", 'abc '),
     ('failure-memo', "start = p q | p r | r ;\np = 'a' ;\nq = 'b' 'b' ;\nr = 'b' | 'a' 'c' ;", 'abc'),
+    # a rule fails twice at one position (recomputed, or replayed from the memo table) and another expression fails in between
+    # at the same furthest position with an error of another class: the error that is reported must not depend on the replay
+    ('failure-replayed-between-failures', "start = p 'x' | q | p 'z' ;\np = /a+/ 'b' ;\nq = /a+/ /c+/ ;", 'abc'),
+    ('failure-replayed-nested', "start = s 'x' | t ;\ns = p 'b' | q 'b' ;\nt = q 'c' | p 'c' | p ;\np = 'a' 'a' ;\nq = 'a' /b+/ ;", 'abc'),
     ('lookahead-memo', "start = &a a 'b' | !b a 'c' | b ;\na = 'a' ;\nb = 'a' 'a' | 'b' ;", 'abc'),
     ('token-rule-blanks', "start = 'a' W 'b' $ | 'a' w 'b' 'b' $ ;\nW = /b*/ ;\nw = /b*/ ;", 'ab '),
     ('multi-line', "start = {l} $ ;\nl = w ';' | w '.' ;\nw = /a+/ ;", 'a;.\n'),
